@@ -5,6 +5,7 @@ import SaphyrVerif.Lemmas.C12Float
 import SaphyrVerif.Lemmas.C12Int
 import SaphyrVerif.Lemmas.C12LiteralDoc
 import SaphyrVerif.Lemmas.C12FoldDoc
+import SaphyrVerif.Lemmas.C12String
 import SaphyrVerif.Props.C06
 /-!
 # C12 — every scalar value survives serialization and deserialization unchanged
@@ -14,11 +15,13 @@ Reader specification: `Spec/ScalarRead.lean` — my formalisation of how the YAM
 reads one scalar; it is *validated* against the real parser by the differential run, not verified.
 All theorems are therefore "relative to the reader formalisation".
 
-Status (after the repairs b4ece9d, 1fdb06b, 832e31b, a252cf9 in /repo): the string clauses hold in the
-modelled positions — `plain_roundtrip`, `plain_meaning`, `literal_roundtrip`, `auto_folded_roundtrip` are
-stated without excluding hypotheses; the former counterexamples are regression examples now. One residue
-remains: with `yaml_12: true` the YAML 1.1 boolean words are written plain and the crate's default
-(non-strict) reader takes them for booleans (`yaml12_bool_word_counterexample`).
+Status (after the repairs b4ece9d, 1fdb06b, 832e31b, a252cf9 and the C13/C20 emitter round up to 995e25e in
+/repo): `string_roundtrip` — EVERY string, in each of the nine positions with a fixed opening, under every
+option vector, is written as a document that reads back as that string; `plain_roundtrip`, `plain_meaning`,
+`literal_roundtrip`, `auto_folded_roundtrip` say which style is read and that plain text still means a
+string. The former counterexamples are regression examples. One residue remains: with `yaml_12: true` the
+YAML 1.1 boolean words are written plain and the crate's default (non-strict) reader takes them for
+booleans (`yaml12_bool_word_counterexample`).
 -/
 namespace SaphyrVerif.Props.C12
 open SaphyrVerif SaphyrVerif.SerScalar SaphyrVerif.Spec.Read SaphyrVerif.Scalars SaphyrVerif.Lemmas.C12
@@ -29,6 +32,19 @@ def roundTrip (o : Opts) (p : SerScalar.Pos) (s : List Char) : Option (Style × 
   match emitDoc o p s with
   | .ok t => readDoc (toRead p) t
   | _ => none
+
+/-! ## the headline: every string round-trips -/
+
+/-- (T) `string_roundtrip`, FULL: for EVERY string `s`, EVERY modelled position (root, map value, map key,
+seq item, FlowSeq item, FlowMap value, FlowMap key, enum newtype payload, mapping in mapping, sequence in
+mapping, sequence in sequence) and EVERY valid option vector (`indent_step ≥ 1`; `quote_all`, `yaml_12`,
+`prefer_block_scalars`, `folded_wrap_chars`, `compact_list_indent` arbitrary): the writer produces a
+document, and the reader reads exactly `s` back from it, in the style the writer chose (`writerStyle`:
+plain, single- or double-quoted, literal, folded — every branch including the fall-backs). -/
+theorem string_roundtrip (o : Opts) (p : SerScalar.Pos) (s : List Char) (hstep : 1 ≤ o.indentStep) :
+    roundTrip o p s = some (writerStyle o p s, s) := by
+  obtain ⟨t, h1, h2⟩ := string_doc o p hstep s
+  unfold roundTrip; rw [h1]; exact h2
 
 /-! ## quoted styles: full round trip for ALL strings -/
 
@@ -102,41 +118,39 @@ theorem plain_scan_roundtrip (s term : List Char) (y flow col0 : Bool)
     (fun _ h => absurd rfl h) (fun e => absurd e hne) hblank
   simpa [readPlain] using this
 
-/-- (T) `plain_roundtrip`, document level, FULL: in every position whose layout does not depend on the
-indentation step (root, map value, map key, seq item, FlowSeq item, FlowMap value, FlowMap key, enum
-newtype payload, seq in seq), under EVERY option vector (including `yaml_12`, whose preamble now carries
-`---`): if the writer decides *plain* for `s`, what it wrote reads back as the same plain scalar. No
-excluding hypothesis: trailing blanks, document-marker look-alikes, a leading U+FEFF and `… -` in flow
-context are quoted by the writer itself (`is_unsafe_plain_shape`, b4ece9d). -/
-theorem plain_roundtrip (o : Opts) (p : SerScalar.Pos) (s : List Char)
-    (hp : simplePos (toRead p) = true) (hw : writerPlain o p s) :
-    roundTrip o p s = some (.plain, s) := by
-  unfold roundTrip
-  rw [emit_plain o p hp s hw]
-  simp only
+/-- when the writer decides plain (`writerPlain`), the style function says so -/
+theorem writerStyle_plain (o : Opts) (p : SerScalar.Pos) (s : List Char) (hw : writerPlain o p s) :
+    writerStyle o p s = .plain := by
   unfold writerPlain at hw
-  have hbody : readDocBody (toRead p) (opening (toRead p) ++ (s ++ lineEnd (toRead p))) = some (.plain, s) ∧
-      headRejects s = false ∧ isUnsafePlainShape s = false := by
-    by_cases hk : isKeyPos p = true
-    · rw [if_pos hk] at hw
-      simp only [Bool.and_eq_true, Bool.not_eq_true'] at hw
-      exact ⟨readDocBody_plain (toRead p) hp s o.yaml12 true hw.1.2 (fun _ => rfl) hw.2, (pvs_unfold hw.1.2).2.1, hw.2⟩
-    · rw [if_neg hk] at hw
-      exact ⟨readDocBody_plain (toRead p) hp s o.yaml12 (toRead p).isFlow hw.2.2.1 (fun h => h) hw.2.2.2.1,
-        (pvs_unfold hw.2.2.1).2.1, hw.2.2.2.1⟩
-  obtain ⟨hb, hhead, hu⟩ := hbody
-  cases hs : s with
-  | nil => rw [hs] at hhead; simp [headRejects] at hhead
-  | cons c r =>
-    rw [hs] at hb hhead hu
-    obtain ⟨_, hpct⟩ := head_facts hhead
-    have hbom : c ≠ Char.ofNat 0xFEFF := by
-      have := (unsafe_shape_facts hu).2.1
-      simpa using this
-    obtain ⟨hh1, hh2⟩ := opening_head (toRead p) c (r ++ lineEnd (toRead p)) hpct hbom
-    rw [show opening (toRead p) ++ (c :: r ++ lineEnd (toRead p)) = opening (toRead p) ++ c :: (r ++ lineEnd (toRead p)) from rfl]
-    rw [readDoc_frame o (toRead p) _ hh1 hh2]
-    exact hb
+  unfold writerStyle
+  by_cases hk : isKeyPos p = true
+  · rw [if_pos hk] at hw ⊢
+    unfold keyStyle; rw [if_pos hw]
+  · rw [if_neg hk] at hw ⊢
+    obtain ⟨hq, hauto, hpv, hu, hdot⟩ := hw
+    have hflow := posCtx_flow o p (by simpa using hk)
+    rw [hflow, hauto]
+    simp only
+    obtain ⟨_, hhead, _, _, _, _⟩ := pvs_unfold hpv
+    have hspecial : (s.length == 1 && (s == ['.'] || s == ['#'] || s == ['-'])) = false := by
+      have h1 : (s == ['.']) = false := by simpa using hdot
+      have h2 : (s == ['#']) = false := by
+        apply Bool.eq_false_iff.mpr; intro e; have := eq_of_beq e; subst this; revert hhead; decide
+      have h3 : (s == ['-']) = false := by
+        apply Bool.eq_false_iff.mpr; intro e; have := eq_of_beq e; subst this; revert hhead; decide
+      simp [h1, h2, h3]
+    rw [hspecial]
+    simp only [Bool.false_eq_true, if_false, pqvStyle, hq, hpv, hu, Bool.not_false, Bool.and_self, if_true]
+
+/-- (T) `plain_roundtrip`, document level, FULL: in every modelled position, under EVERY option vector
+(including `yaml_12`, whose preamble now carries `---`): if the writer decides *plain* for `s`, what it
+wrote reads back as the same plain scalar. No excluding hypothesis: trailing blanks, document-marker
+look-alikes, a leading U+FEFF and `… -` in flow context are quoted by the writer itself
+(`is_unsafe_plain_shape`, b4ece9d). -/
+theorem plain_roundtrip (o : Opts) (p : SerScalar.Pos) (s : List Char)
+    (hstep : 1 ≤ o.indentStep) (hw : writerPlain o p s) :
+    roundTrip o p s = some (.plain, s) := by
+  rw [string_roundtrip o p s hstep, writerStyle_plain o p s hw]
 
 /-- (T) `plain_meaning`, FULL for YAML 1.1 mode: a string the writer leaves plain (any position) still
 MEANS a string to the crate's reader: not null, not a boolean, not a number (1fdb06b: whatever the
@@ -281,16 +295,16 @@ theorem literal_block_roundtrip (N : Nat) (parent : Int) (v : List Char) (hN : 1
       (litLines N v) = some (v, []) :=
   literal_read N parent v hN hcontent hauto hexpl
 
-/-- (T) `literal_roundtrip`, document level, FULL: whenever the writer emits the automatic literal style
-(`writerLiteral`: the selection, and no fall-back to quoting for a two-digit indicator) at the root, as a
-map value, as a sequence item or as an enum newtype payload, under every option vector, the document
-reads back as the same string. No excluding hypothesis: since a252cf9 the writer itself does not send
-strings with CR / NUL / other controls or made of line breaks only to the literal style
-(`autoStyle_literal_facts`). -/
-theorem literal_roundtrip (o : Opts) (p : SerScalar.Pos) (v : List Char) (hp : blockSimplePos p = true)
-    (hstep : 1 ≤ o.indentStep) (hw : writerLiteral o v) :
+/-- (T) `literal_roundtrip`, document level, FULL: whenever the writer really emits the automatic literal
+style (the selection `autoStyle … = literal`, and its own fall-back test `blockFallback` is false) at the
+root, as a map value, as a sequence item, as an enum newtype payload, in a sequence in a sequence, in a
+mapping in a mapping or in a sequence in a mapping, under every option vector, the document reads back as the same string in literal style. (When the fall-back
+applies the string is written quoted or plain: covered by `string_roundtrip`.) -/
+theorem literal_roundtrip (o : Opts) (p : SerScalar.Pos) (v : List Char) (hp : isBlockPos p = true)
+    (hstep : 1 ≤ o.indentStep) (hauto : autoStyle o false v = some .literal)
+    (hnf : blockFallback o (posCtx o p) v = false) :
     roundTrip o p v = some (.literal, v) := by
-  obtain ⟨t, h1, h2⟩ := literal_doc o p v hp hstep hw
+  obtain ⟨t, h1, h2⟩ := literal_doc o p v hp hstep hauto hnf
   unfold roundTrip
   rw [h1]
   exact h2
@@ -313,13 +327,14 @@ theorem folded_read_segments (N : Nat) (hN : 1 ≤ N) (segs : List (List Char)) 
   simpa using blockBody_fold N hN segs hsegs true [] hne
 
 /-- (T) document level: whenever the writer selects the automatic folded style (single-line string that
-passes the value test and is longer than `folded_wrap_chars`) at the root, as a map value, as a sequence
-item or as an enum newtype payload, the document reads back as the same string. No excluding hypothesis
-is needed: in particular a trailing blank survives in a block scalar. -/
-theorem auto_folded_roundtrip (o : Opts) (p : SerScalar.Pos) (v : List Char) (hp : blockSimplePos p = true)
-    (hstep : 1 ≤ o.indentStep) (hauto : autoStyle o false v = some .folded) :
+passes the value test and is longer than `folded_wrap_chars`, fall-back test false) in a block value
+position with a fixed opening, the document reads back as the same string. No excluding hypothesis is
+needed: in particular a trailing blank survives in a block scalar. -/
+theorem auto_folded_roundtrip (o : Opts) (p : SerScalar.Pos) (v : List Char) (hp : isBlockPos p = true)
+    (hstep : 1 ≤ o.indentStep) (hauto : autoStyle o false v = some .folded)
+    (hnf : blockFallback o (posCtx o p) v = false) :
     roundTrip o p v = some (.folded, v) := by
-  obtain ⟨t, h1, h2⟩ := folded_doc o p v hp hstep hauto
+  obtain ⟨t, h1, h2⟩ := folded_doc o p v hp hstep hauto hnf
   unfold roundTrip
   rw [h1]
   exact h2
@@ -385,6 +400,14 @@ example : writerPlain {} .flowMapValue "a:b".toList ∧ roundTrip {} .flowMapVal
 example : writerPlain {} .mapKey "?a b".toList ∧ "?a b".toList.getLast? ≠ some ' ' := by constructor <;> decide
 example : normalizeFloatText "4e-6".toList = "4.0e-6".toList ∧ normalizeFloatText "1e21".toList = "1.0e+21".toList ∧
     normalizeFloatText "123".toList = "123.0".toList ∧ normalizeFloatText "-1.5e300".toList = "-1.5e+300".toList := by decide
+-- nested positions and every indentation step: the style function and the round trip
+example : writerStyle { indentStep := 4, foldedWrap := 1 } .seqInSeq "\t\n".toList = .literal ∧
+    emitDoc { indentStep := 4, foldedWrap := 1 } .seqInSeq "\t\n".toList = .ok "- - |\n      \t\n".toList ∧
+    roundTrip { indentStep := 4, foldedWrap := 1 } .seqInSeq "\t\n".toList = some (.literal, "\t\n".toList) ∧
+    roundTrip { indentStep := 3, foldedWrap := 1 } .nestedMapValue "a\nb".toList = some (.literal, "a\nb".toList) ∧
+    roundTrip { indentStep := 5, foldedWrap := 1, compactList := true } .seqInMap " a\nb".toList = some (.literal, " a\nb".toList) ∧
+    roundTrip { indentStep := 5, foldedWrap := 1 } .seqInMap " a\nb".toList = some (.double, " a\nb".toList) := by
+  refine ⟨?_, ?_, ?_, ?_, ?_, ?_⟩ <;> decide
 example : (⟨true, ['4'], none, some (true, ['6'])⟩ : ZmijParts).text = "-4e-6".toList := by decide
 example : autoStyle { foldedWrap := 4 } false "aa bb  cc ".toList = some .folded ∧
     roundTrip { foldedWrap := 4 } .root "aa bb  cc ".toList = some (.folded, "aa bb  cc ".toList) := by
